@@ -7,6 +7,7 @@ import DesyncModel.Tables.Wake
 import DesyncModel.Inv.ParkReach
 import DesyncModel.Inv.WakeReach
 import DesyncModel.Inv.WakeTReach
+import DesyncModel.Inv.Latch
 
 namespace Desync.C06
 open Desync Gen
@@ -147,7 +148,30 @@ theorem thread_context_tables :
 theorem activities_keep_their_thread {s s' : State} {a : Nat} {o : Obs} (hs : stepAct s a = some (s', o)) (b : Nat)
     (hb : b < s.acts.length) : s'.threadOf b = s.threadOf b := threadOf_stepAct hs b hb
 
-/-- the executions the theorems above quantify over never enter the task-context code -/
+/-! ### the "task polling a returned future" context: the latch -/
+
+/-- **The `DrainWaker` latch holds a waker exactly while it is armed**, in every reachable state (every kind of call, the
+task-context ones included; `LatchInv`, inductive over all program counters).  With the two latch tables (`latch`) this is the
+latch's whole contract: a wake-up that arrives before `wake_with` finds `NotWoken` with nothing stored and leaves `Woken`, and
+`wake_with` then fires the waker it is given at once; a wake-up that arrives after finds `WillWakeWithWaker` with the waker
+stored, fires it and takes it out — so the waker handed to `wake_with` is fired exactly once whichever way the race goes, and
+never twice.  What is *not* proved for this context is the rest of the chain (latch → `DoubleWaker` → queue / task), which rests
+on conformance and the oracles. -/
+theorem latch_holds_a_waker_iff_armed {s : State} (hr : Reachable s) {l : Nat} {st : Latch} {w : Option Waker}
+    (hl : s.latches[l]? = some (st, w)) : w.isSome = true ↔ st = .willWake :=
+  (latchInv_reachable hr).ok l st w hl
+
+/-- non-vacuity: an armed latch with its waker, and an unarmed one without -/
+example : LatchInv { initState 1 0 1 with latches := [(.willWake, some (.queue 0)), (.woken, none), (.notWoken, none)] } := by
+  refine ⟨?_⟩
+  intro l st w hl
+  match l with
+  | 0 => simp at hl; obtain ⟨rfl, rfl⟩ := hl; simp
+  | 1 => simp at hl; obtain ⟨rfl, rfl⟩ := hl; simp
+  | 2 => simp at hl; obtain ⟨rfl, rfl⟩ := hl; simp
+  | n + 3 => simp at hl
+
+/-- the executions the `ReachableNT` theorems above quantify over never enter the task-context code -/
 theorem no_task_context_without_polling {s : State} (hr : ReachableNT s) (b : Nat) : (s.pcAt b).noTask = true :=
   (ntWake_reachable hr).nt.pcs b
 
